@@ -30,10 +30,13 @@ def generate(seed, mode):
     S = Streams(seed)
     w = S('world')
     o = S('ops')
-    nI = w.randint(3, 7)
+    big = h64(seed, 'big-world') % 12 == 0        # swarm knob: now and then a wide, deep hierarchy
+    nI = w.randint(3, 7) if not big else w.randint(9, 14)
     ibases = []
     for i in range(nI):
         k = w.choice([0, 1, 1, 2, 2, 3]) if i else 0
+        if big and i:
+            k = w.choice([1, 2, 3, 4, 5])
         k = min(k, i)
         ibases.append(w.sample(range(i), k))
     dense = w.random() < 0.6            # many ancestors define the same names
